@@ -314,4 +314,12 @@ example : (Packet.unpack ⟨[], 0, 0, Option.none⟩ wMIL).2 = .error .generic :
 example : (Packet.unpack ⟨[], 0, 0, some 7⟩ wMIL).2 = .error .attribute := by rfl
 example : (Packet.unpack ⟨[], 0, 0, Option.none⟩ (wMIL.take 18)).2 = .ok () := by rfl
 
+/-- joint witnesses for the helper lemmas above: `Ipts_unpack_ok8` (a PTP stamp decoder on 8 bytes), `MILMsg_unpack_ok_of_len`
+    (an RTC message decoder on the 15 bytes the loop condition guarantees), `MIL_proto_ipts` (the prototype for source 1) -/
+example : (Ipts.ptp 0 0 ≠ .none) ∧ ([1, 0, 0, 0, 2, 0, 0, 0] : Bytes).length = 8 ∧
+    Ipts.unpack (.ptp 0 0) [1, 0, 0, 0, 2, 0, 0, 0] = .ok (.ptp 2 1) := ⟨by decide, rfl, rfl⟩
+example : (Msg.fresh (.rtc 0)).ipts ≠ .none ∧ 14 ≤ (wMIL.drop 18).length ∧
+    (Msg.unpack (Msg.fresh (.rtc 0)) ((wMIL.drop 18).take 15)).2 = .ok 17 := ⟨by decide, by decide, rfl⟩
+example : Packet.proto ⟨[], 0, 0, some 1⟩ = .ok (Msg.fresh (.ptp 0 0)) ∧ (Msg.fresh (.ptp 0 0)).ipts ≠ .none := ⟨rfl, by decide⟩
+
 end Acra.Props.C08
